@@ -979,6 +979,10 @@ func (s *Store[K, V]) Recover(version uint64, reader io.Reader) error {
 	block := &DataBlock[any]{}
 	s.policyMu.Lock()
 	defer s.policyMu.Unlock()
+	// a region stops taking entries at the first one that does not fit, so that what
+	// is restored into a smaller cache is the most recently used end of the region
+	// and never exceeds the new capacity
+	var windowFull, probationFull, protectedFull bool
 	for {
 		// reset block first
 		block.Data = nil
@@ -1025,7 +1029,9 @@ func (s *Store[K, V]) Recover(version uint64, reader io.Reader) error {
 				if expire != 0 && expire < s.timerwheel.clock.NowNano() {
 					continue
 				}
-				if s.policy.window.Len() < int(s.policy.window.capacity) {
+				if windowFull || s.policy.window.Len()+int(pentry.PolicyWeight) > int(s.policy.window.capacity) {
+					windowFull = true
+				} else {
 					entry := pentry.entry()
 					s.policy.window.PushBack(entry)
 					s.insertSimple(entry)
@@ -1052,7 +1058,9 @@ func (s *Store[K, V]) Recover(version uint64, reader io.Reader) error {
 				}
 				l1 := s.policy.slru.protected
 				l2 := s.policy.slru.probation
-				if l1.len+l2.len < int64(s.policy.slru.maxsize) {
+				if probationFull || l1.len+l2.len+pentry.PolicyWeight > int64(s.policy.slru.maxsize) {
+					probationFull = true
+				} else {
 					entry := pentry.entry()
 					l2.PushBack(entry)
 					s.insertSimple(entry)
@@ -1078,7 +1086,9 @@ func (s *Store[K, V]) Recover(version uint64, reader io.Reader) error {
 					continue
 				}
 				l := s.policy.slru.protected
-				if l.len < int64(l.capacity) {
+				if protectedFull || l.len+pentry.PolicyWeight > int64(l.capacity) {
+					protectedFull = true
+				} else {
 					entry := pentry.entry()
 					l.PushBack(entry)
 					s.insertSimple(entry)
